@@ -629,7 +629,7 @@ impl Check for C16 {
 		CheckInfo {
 			id: "C16",
 			level: "exploration",
-			rule: "three streams. orders (1/2): seeded sequences over {add (nested) track with a rate-probe effect, add send track with one, change the device sample rate, callback} from 8 kHz to 192 kHz; sched (1/4): a gameplay task adding (nested) tracks against a device task changing the rate and running callbacks, under seeded random schedules at the yield points between reading the shared sample rate and enqueueing the track and inside on_change_sample_rate; seconds (1/4): one scene described in seconds (finite sound at any source rate and playback rate, clock, volume tween, delay echo) rendered in three worlds at different device rates, the third changing its rate mid-stream; non-trivial = at least two effect process calls checked / worlds compared; distinct = hash of the per-callback (rate, probes) sequence, of the yield trace, of the scene parameters",
+			rule: "three streams. orders (1/2): seeded sequences over {add (nested) track with a rate-probe effect, add send track with one, drop a track handle (the track lives on while a track below it is alive), change the device sample rate, callback} from 8 kHz to 192 kHz; sched (1/4): a gameplay task adding (nested) tracks against a device task changing the rate and running callbacks, under seeded random schedules at the yield points between reading the shared sample rate and enqueueing the track and inside on_change_sample_rate; seconds (1/4): one scene described in seconds (finite sound at any source rate and playback rate, clock, volume tween, delay echo) rendered in three worlds at different device rates, the third changing its rate mid-stream; non-trivial = at least two effect process calls checked / worlds compared; distinct = hash of the per-callback (rate, probes) sequence, of the yield trace, of the scene parameters",
 			assumptions: vec![
 				"seconds-domain comparisons allow two callbacks plus a few frames of slack (events are issued at callback boundaries)".into(),
 				"the delay effect restarts with an empty line when the rate changes; the echo is measured from a click issued after the change".into(),
